@@ -943,7 +943,9 @@ def policy(repo, tier):
                                   f"{root.q}: " + "; ".join(sorted({f"{e['how']} on {e['state']}" for (e, _f) in open_})[:4]) +
                                   (" -- not under a lock: two threads interleaving save / set / restore leave the other thread's wrapper installed" if open_ else "all under a lock"),
                                   rel, definite=False)
-            o["replay_hint"] = {"rel": rel, "patchers": [[rel, key[1]]] if O.is_context_manager(root) else [], "functions": helpers}
+            o["replay_hint"] = {"rel": rel, "patchers": [[rel, key[1]]] if O.is_context_manager(root) else [], "functions": helpers,
+                                # a save / set / restore section is broken by TWO context switches; the statements to aim at
+                                "two_switch": True, "lines": sorted({getattr(e["node"], "lineno", 0) for (e, _f) in by_root[key] if getattr(e["node"], "lineno", 0)})}
             obls.append(o)
     # H6: handles closed on all paths
     bad, n_sites = [], 0
@@ -1003,6 +1005,10 @@ def policy(repo, tier):
     # after mkdtemp): an unrecognised shape is `unknown` -- the native probes (damaged archives, abandoned generators) decide
     G("C15/package/typestate#every-handle-opened-by-own-code-is-closed-on-all-paths", not bad and n_sites >= 10, "; ".join(bad[:6]) or f"{n_sites} open sites", "package",
       definite=False)
+    # H15 (round 6): scratch files live in a location allocated for the call (contracts/c15_fs.py: anchor flow of every written path)
+    from contracts import c15_fs
+    skip_fs = {k_ for k_ in an.fns if k_[0] in script_mods and not O.callers(an).get(k_)}
+    obls.append(c15_fs.obligation(an, ground_obligation, skip_fs))
     return {"obligations": obls, "functions": fns}
 
 
